@@ -1162,7 +1162,7 @@ NUMARR_RULE = ("Numeric-structure family (implementation-only oracle, no model):
 
 
 def run_numarr(run, himpl, ncases):
-    """runs the family, reports at most 3 violations per operator (the shortest inputs); -> statistics for the evidence"""
+    """runs the family, reports at most 3 violations per operator (the shortest inputs); -> kinds, statistics for the evidence"""
     _, impl, _ = V.run_lines_parallel([himpl], ["X\t-\t%s" % V.hx(c.sqf()) for c in ncases], timeout=6000)
     kinds, bad, rejected_with = {}, {}, {"diagnostic": 0, "nil-or-empty": 0}
     for c, il in zip(ncases, impl):
@@ -1175,7 +1175,10 @@ def run_numarr(run, himpl, ncases):
         if v is not None:
             bad.setdefault(c.op, []).append((len(c.sqf()), c, il, v))
     for op in sorted(bad):
-        for _, c, il, (what, expected) in sorted(bad[op], key=lambda x: x[0])[:3]:
+        # per operator the shortest input that kills the process and the two shortest others
+        died = lambda il: il.split("\t")[0].split(";")[0].split(" ")[0] in CRASHY or il.startswith("HARNESS")
+        by_len = sorted(bad[op], key=lambda x: x[0])
+        for _, c, il, (what, expected) in [x for x in by_len if died(x[2])][:1] + [x for x in by_len if not died(x[2])][:2]:
             rep = c.to_json()
             rep.update({"impl_out": il, "expected": expected, "cases_of_this_operator_failing": len(bad[op])})
             run.violation(what, rep, found_input=expected is not None)
